@@ -387,6 +387,17 @@ def gen_case(rng, tier):
         if t["seq"] > 0 and rng.chance(0.35):
             for _ in range(rng.pick([1, 1, 2])):
                 stale.append({"of": t, "seq": rng.randrange(0, t["seq"]), "mode": rng.pick(["shift", "mutate", "empty"])})
+    if tabs and rng.chance(0.3):
+        # a table index of its own whose NEWEST version is empty (everything in it was deleted) while an older version still
+        # holds entries: the newest version is the table, so nothing of it shows
+        t = rng.pick(tabs)
+        used = {x["index"] for x in tabs}
+        ghost = max(used) + 1 + rng.randrange(0, 3)
+        if ghost > 65535:
+            ghost = next(i for i in range(2, 65536) if i not in used)
+        lo = rng.randrange(0, 1000)
+        stale.append({"of": t, "seq": lo, "mode": "mutate", "index_override": ghost})
+        stale.append({"of": t, "seq": lo + rng.randint(1, 50), "mode": "empty", "index_override": ghost})
     c["n_stale"] = len(stale)
 
     # ---- file regions
@@ -491,8 +502,8 @@ def gen_case(rng, tier):
         else:
             entries = [render_entry(t, r, mutate=True) for r in t["recs"]]
             size = t["size"]
-        ktabs.append({"off": off_of[id(s)], "size": size, "sig": SIG_KTAB, "index": t["index"], "seq": s["seq"],
-                      "entries": entries, "fill": 0})
+        ktabs.append({"off": off_of[id(s)], "size": size, "sig": SIG_KTAB, "index": s.get("index_override", t["index"]),
+                      "seq": s["seq"], "entries": entries, "fill": 0})
         s["size"] = size
     # ---- render object tables
     out_otabs = []
